@@ -1268,6 +1268,111 @@ def r_noshift(f):
             triv = [any(V[k] == "Z" for k in gkeys[c_]) for c_ in (0, 1)]
             if not all(triv):
                 bad.append((e, "Z" if triv[0] else "NZ", "Z" if triv[1] else "NZ"))
+    # wrap-around normalisation: a component that equals its dimension is replaced by 0 (the same shift), nothing else
+    ninst = 1
+    for sb, bl in enumerate(b.blocks):
+        tt = bl["term"]
+        if bl["cleanup"] or not tt or tt["k"] != "switch":
+            continue
+        e_ = strip(dfe.expr(tt["discr"]))
+        if not (e_[0] == "bin" and e_[1] == "Eq"):
+            continue
+        sides = [strip(e_[2]), strip(e_[3])]
+        dimside = [x for x in sides if x[0] == "call" and x[2] in ("num_rows", "num_cols")]
+        if len(dimside) != 1:
+            continue
+        tm_ = dict((int(a), b2) for a, b2 in tt["targets"])
+        t_succ = tt["otherwise"] if 0 in tm_ else tm_.get(1)
+        if t_succ is None:
+            continue
+        for st in b.blocks[t_succ]["stmts"]:
+            if st["k"] == "assign" and not st["p"]["proj"] and any(st["p"]["local"] in groups[c_] for c_ in (0, 1)) and st["rv"]["k"] == "use" and st["rv"]["o"]["k"] == "const":
+                cv = const_usize(("const", st["rv"]["o"]["val"], st["rv"]["o"].get("ty")))
+                ninst += 1
+                R.inst(b.ident, "a component equal to its dimension is normalised to 0 (got %s)" % cv, cv == 0)
+                if cv != 0:
+                    R.fail(b.ident, "wrap-norm:%s" % cv, "%s replaces a component of mid that equals its dimension (a shift by the whole extent, i.e. no shift) by %s instead of 0" % (b.ident, cv), b.where(st["span"]))
+    # a partial move (swap of a sub-range, rotation by an amount) that is skipped under a comparison is skipped only when it would
+    # have moved nothing: on the skipping edge the sub-range is empty / the amount is zero
+    from .vgraph import Poly, Cond, decide, saturate
+    pn_ = b.param_names()
+
+    def PP(e):
+        e = strip(e)
+        cu = const_usize(e)
+        if cu is not None:
+            return Poly.const(cu)
+        if e[0] == "bin":
+            op = e[1].replace("WithOverflow", "").replace("Unchecked", "")
+            if op in ("Add", "Sub", "Mul"):
+                x, y = PP(e[2]), PP(e[3])
+                return x + y if op == "Add" else (x - y if op == "Sub" else x * y)
+        return Poly.atom(show(e, pn_))
+    for mb, t, fn in b.calls():
+        if not fn or fn["name"] not in ("swap_with_slice", "rotate_left", "rotate_right", "copy_from_slice", "clone_from_slice"):
+            continue
+        lens = []
+        if fn["name"] in ("rotate_left", "rotate_right") and len(t["args"]) == 2:
+            lens.append(("amount", PP(dfe.expr(t["args"][1]))))
+        for a in t["args"][:2]:
+            for x in walk(strip(dfe.expr(a))):
+                if x[0] == "call" and x[2] in ("get_unchecked_mut", "get_unchecked", "index", "index_mut") and len(x[3]) == 2:
+                    r_ = strip(x[3][1])
+                    if r_[0] == "agg" and r_[1].endswith("RangeTo") and len(r_[2]) == 1:
+                        lens.append(("range ..%s" % show(r_[2][0], pn_), PP(r_[2][0])))
+                    elif r_[0] == "agg" and r_[1].endswith("Range::Range") and len(r_[2]) == 2:
+                        lens.append(("range %s..%s" % (show(r_[2][0], pn_), show(r_[2][1], pn_)), PP(r_[2][1]) - PP(r_[2][0])))
+        if not lens:
+            continue
+        # nearest comparison switch controlling the call: one successor dominates the call, the other cannot reach it without
+        # passing the switch again
+        ctrl = None
+        for sb in sorted(dome.get(mb, set()), key=lambda x: -len(dome.get(x, set()))):
+            tt = b.blocks[sb]["term"]
+            if sb == mb or not tt or tt["k"] != "switch":
+                continue
+            e_ = strip(dfe.expr(tt["discr"]))
+            neg_ = False
+            while e_[0] == "un" and e_[1] == "Not":
+                neg_ = not neg_; e_ = strip(e_[2])
+            if not (e_[0] == "bin" and e_[1] in ("Lt", "Le", "Gt", "Ge", "Eq", "Ne")):
+                continue
+            tm_ = dict((int(a), b2) for a, b2 in tt["targets"])
+            f_succ, t_succ = tm_.get(0, tt["otherwise"]), (tt["otherwise"] if 0 in tm_ else tm_.get(1))
+            takes = [sx for sx in (t_succ, f_succ) if sx is not None and (sx == mb or sx in dome.get(mb, set()))]
+            if len(takes) != 1:
+                continue
+            skip_true = takes[0] == f_succ          # the call runs on the false edge: it is skipped when the comparison is true
+            ctrl = (e_, neg_ != skip_true)
+            break
+        if ctrl is None:
+            continue
+        e_, cond_true_on_skip = ctrl
+        opmap = {"Lt": "<", "Le": "<=", "Gt": ">", "Ge": ">=", "Eq": "==", "Ne": "!="}
+        c_ = Cond(opmap[e_[1]], PP(e_[2]) - PP(e_[3]))
+        if not cond_true_on_skip:
+            c_ = c_.neg()
+        atoms_c = {a for mono in c_.poly.t for a in mono}
+        for what, ln in lens:
+            atoms_l = {a for mono in ln.t for a in mono}
+            if not (atoms_c & atoms_l):
+                continue          # the guard is about something else (which rows, whether to shift at all)
+            ninst += 1
+            facts = [c_] + [Cond(">=", Poly.atom(a)) for a in atoms_l | atoms_c]
+            okz = decide(facts, Cond("<=", ln)) is True or decide(saturate(facts), Cond("<=", ln)) is True
+            R.inst(b.ident, "%s(..) over the %s is skipped only when that is empty / zero (skip condition %r)" % (fn["name"], what, c_), okz)
+            if not okz:
+                R.fail(b.ident, "skips-nonempty:%s:%s" % (fn["name"], what), "%s skips %s(..) over the %s when %r holds, although the %s can then still be non-empty: those cells are not moved" % (b.ident, fn["name"], what, c_, what.split(" ")[0]), b.where(t["span"]))
+    # rows are rotated towards the origin (the cell at mid moves to column 0): rotate_left by the column shift; a rotate_right is
+    # only the same thing when its amount is `num_cols - shift`
+    for mb, t, fn in [(x, y, z) for bb_ in [b] + b.closures() for x, y, z in bb_.calls()]:
+        if fn and fn["path"] == "core::slice::<impl [T]>::rotate_right" and len(t["args"]) == 2:
+            e_ = strip(Dfx(b).expr(t["args"][1])) if mb < len(b.blocks) and b.blocks[mb]["term"] is t else ("?",)
+            okd = e_[0] == "bin" and e_[1].startswith("Sub") and strip(e_[2])[0] == "call" and strip(e_[2])[2] in ("num_cols", "len")
+            ninst += 1
+            R.inst(b.ident, "rows are rotated left by the column shift (or right by num_cols - shift)", okd)
+            if not okd:
+                R.fail(b.ident, "rotate-direction", "%s rotates a row to the RIGHT by the column shift: the cell at column mid.0 must move to column 0, which is a rotation to the left (or to the right by num_cols - mid.0)" % b.ident, b.where(t["span"]))
     ok = not bad
     R.inst(b.ident, "every exit that no element-moving call can reach (%d) is taken only with both components of mid zero" % nexit[0], ok)
     if bad:
